@@ -275,7 +275,7 @@ def run(shard, tier, seed):
     @given(st.randoms(use_true_random=True), st.sampled_from(chainexec.CFGS), st.integers(5, 14 if tier == "quick" else 26), st.booleans(),
            st.sampled_from(["store", "disk_interface"]), st.sampled_from(["obj", "bytes"]))
     def prop(rnd, cfg, nb, shared, via, form):
-        opts = dict(p_fork=0.5, p_tx=0.8, zero_rewards=True, p_unusual=0.3, max_tx=4)
+        opts = dict(p_fork=0.5, p_tx=0.8, zero_rewards=True, p_unusual=0.3, max_tx=4, p_binary_cbdata=0.35)
         res.count("generated")
         if shared:
             opts.update(p_copy=0.35, p_same_cb=0.3)
